@@ -63,8 +63,20 @@ def select_dispatch(ctx):
                                           SP('descrsError'): ctx.alloc(GSet([]))}))
     I = Interp(ctx, hooks={'call:cb': cb_hook})
     fr = Frame(mod, 'SelectPoller', 'SelectPoller.poll')
-    fr.locals.update({'self': obj, 'rlist': ctx.alloc(GSet([(inr, d, None)])), 'wlist': ctx.alloc(GSet([(inw, d, None)])),
-                      'xlist': ctx.alloc(GSet([(inx, d, None)]))})
+    fr.locals.update({'self': obj})
+    # the three ready sets are whatever locals the loop body tests the descriptor against; which is which is read off the event bit that
+    # the test guards (`if descr in <set>: event |= POLL_EVENT_TYPE.<KIND>`), not off the names
+    kinds = {}
+    for st_ in loop.body:
+        if isinstance(st_, ast.If) and isinstance(st_.test, ast.Compare) and len(st_.test.ops) == 1 and isinstance(st_.test.ops[0], ast.In) \
+                and isinstance(st_.test.comparators[0], ast.Name):
+            bits = [x.attr for x in ast.walk(st_) if isinstance(x, ast.Attribute) and x.attr in ('READ', 'WRITE', 'ERROR')]
+            if len(bits) == 1:
+                kinds[bits[0]] = st_.test.comparators[0].id
+    if sorted(kinds) != ['ERROR', 'READ', 'WRITE'] or len(set(kinds.values())) != 3:
+        raise Undecided('the ready-set tests of the dispatch loop of SelectPoller.poll were not recognised')
+    for kind_, guard in (('READ', inr), ('WRITE', inw), ('ERROR', inx)):
+        fr.locals[kinds[kind_]] = ctx.alloc(GSet([(guard, d, None)]))
     I.assign(loop.target, d, fr)
     try:
         I.exec_block(loop.body, fr)
